@@ -178,6 +178,46 @@ pub enum EstErr {
     NotEstablished(String),
 }
 
+/// Runs the raw peer's side and the side of the endpoint under test concurrently. The bound for
+/// the endpoint (`limit`) starts when the raw side has finished sending — not when it started — and
+/// a wait that expires counts only if the runtime was demonstrably alive meanwhile (heartbeat task,
+/// 5 ms period, at least 40 % of the beats an unloaded runtime produces); otherwise the run says
+/// nothing about the endpoint (`Err(starved)`), whatever the machine is busy with.
+async fn join_anchored<A, B, RA, RB>(raw_side: A, sut_side: B, limit: Duration, raw_watchdog: Duration) -> (Waited<RA>, Result<Waited<RB>, String>)
+where
+    A: std::future::Future<Output = RA>,
+    B: std::future::Future<Output = RB>,
+{
+    let hb = crate::util::Heartbeat::start();
+    tokio::pin!(raw_side);
+    tokio::pin!(sut_side);
+    let watchdog = tokio::time::sleep(raw_watchdog);
+    tokio::pin!(watchdog);
+    let mut sut_res: Option<RB> = None;
+    let raw_res = loop {
+        tokio::select! {
+            r = &mut raw_side => break Waited::Done(r),
+            s = &mut sut_side, if sut_res.is_none() => sut_res = Some(s),
+            _ = &mut watchdog => break Waited::TimedOut,
+        }
+    };
+    if let Some(s) = sut_res {
+        return (raw_res, Ok(Waited::Done(s)));
+    }
+    let (b0, t0) = (hb.beats(), std::time::Instant::now());
+    match within(limit, &mut sut_side).await {
+        Waited::Done(s) => (raw_res, Ok(Waited::Done(s))),
+        Waited::TimedOut => {
+            let (beats, waited) = (hb.beats() - b0, t0.elapsed());
+            if beats < waited.as_millis() as u64 / 5 * 4 / 10 {
+                (raw_res, Err(format!("runtime starved while waiting for the endpoint ({beats} heartbeats in {waited:?})")))
+            } else {
+                (raw_res, Ok(Waited::TimedOut))
+            }
+        }
+    }
+}
+
 /// Establishes a session following `script`. Bound `limit` applies to the endpoint under test.
 pub async fn establish(role: Role, script: &Script, limit: Duration) -> Result<Live, EstErr> {
     let rt = script.transport.as_ref().map(|f| f()).unwrap_or_else(raw::raw_transport);
@@ -208,7 +248,11 @@ pub async fn establish(role: Role, script: &Script, limit: Duration) -> Result<L
                 let conn = req.accept().await.map_err(|e| format!("accept: {e}"))?;
                 Ok::<_, String>((conn, info))
             };
-            let (raw_res, sut_res) = tokio::join!(within(limit + Duration::from_secs(2), raw_side), within(limit + script.pause * 8, sut_side));
+            let (raw_res, sut_res) = join_anchored(raw_side, sut_side, limit, limit + Duration::from_secs(30)).await;
+            let sut_res = match sut_res {
+                Ok(x) => x,
+                Err(starved) => return Err(EstErr::Harness(starved)),
+            };
             let (raw_ep, peer, s, mut r, sid) = match raw_res {
                 Waited::Done(Ok(x)) => x,
                 Waited::Done(Err(e)) => {
@@ -261,7 +305,11 @@ pub async fn establish(role: Role, script: &Script, limit: Duration) -> Result<L
                 Ok::<_, String>((peer, s, sid))
             };
             let sut_side = async { client.connect(url).await.map_err(|e| format!("connect: {e}")) };
-            let (raw_res, sut_res) = tokio::join!(within(limit + Duration::from_secs(12), raw_side), within(limit + script.pause * 8, sut_side));
+            let (raw_res, sut_res) = join_anchored(raw_side, sut_side, limit, limit + Duration::from_secs(40)).await;
+            let sut_res = match sut_res {
+                Ok(x) => x,
+                Err(starved) => return Err(EstErr::Harness(starved)),
+            };
             let conn = match sut_res {
                 Waited::Done(Ok(c)) => c,
                 Waited::Done(Err(e)) => return Err(EstErr::NotEstablished(e)),
